@@ -209,6 +209,8 @@ func C10(p *load.Prog, r *oblig.Run) {
 	r.Assumptions = []string{"go/ssa control-flow graph of IndividualNodes.Merge"}
 	r.Rule("R10.a", "each comparison contributes exactly one individual to the merge result on every path", 3)
 	c10Errors(p, r)
+	// the merged individual holds the facts of both originals only if MergeNodes accounts for every right child (C09's path rule)
+	c09Accounts(p, r)
 	fn := p.Method(load.PkgRoot, "IndividualNodes", "Merge")
 	mn := p.Func(load.PkgRoot, "MergeNodes")
 	if fn == nil || mn == nil {
